@@ -76,7 +76,8 @@ CFG = {
             "superseded as the main claim by pipeline_never_panics_sized / _small"},
     "n": {"quick": 1200, "thorough": 20000},
     "exhaustive": {"quick": False, "thorough": False},
-    "rule": "every case is a complete file (`doc <hex>`) run through (a) the REAL pdf_printer binary, built from /repo's working tree, in a subprocess "
+    "rule": "STRUCTURES RUNNING INTO THE END OF THE FILE WHILE STILL REACHABLE (follow-up to seed C01_11): a classic table / cross-reference stream / object stream that is the LAST thing in the file and is announced by a complete earlier startxref or by /Prev of a complete newer section, cut at every byte of its last entries (dense near the end, strided beyond) - termination, no panic, and the documented outcome for each cut; "
+            "every case is a complete file (`doc <hex>`) run through (a) the REAL pdf_printer binary, built from /repo's working tree, in a subprocess "
             "(10 s limit, 4 GiB address space; outcome = exit status 0 completed / 1 rejected / anything else abnormal) and (b) the end-to-end Lean model "
             "Pipeline.run; the outcome words must agree, and the oracle accepts only completed/rejected. Generators: hand-built adversarial documents "
             "(self-referential objects used as /Kids, /Contents, /Resources, /Pages, /Length, /Root, /Font, /Filter; /Kids, /Contents and reference-chain "
